@@ -1016,10 +1016,15 @@ def desugar_get_or_insert_with(toks, log):
     return toks
 
 
+STR_CONST_NAMES = set()
+
+
 def desugar_str_match(toks, log):
     """R39: `match SCRUT { "a" => {A}, "b" => {B}, _ => {D} }` whose patterns are all string literals (or `_`) becomes
     `if SCRUT == "a" {A} else if SCRUT == "b" {B} else {D}` -- the definition of matching a `&str` against literal patterns, first match wins
-    (Verus gives string-literal patterns no meaning). Expects block-bodied single-pattern arms (R25 + R26 have run)."""
+    (Verus gives string-literal patterns no meaning). Expects block-bodied single-pattern arms (R25 + R26 have run).
+    R39b: a pattern that is the NAME of a string constant the unit extracted (directive strconsts: `pub const NAME: &str = "..."` read from
+    the repository) is a constant pattern and means the same equality test."""
     toks = list(toks)
     k = 0
     while k < len(toks):
@@ -1047,7 +1052,7 @@ def desugar_str_match(toks, log):
         ok = True
         while i is not None and i < close:
             pat = toks[i]
-            if not ((pat.kind == 'str') or (pat.kind in ('ident', 'punct') and pat.text == '_')):
+            if not ((pat.kind == 'str') or (pat.kind == 'ident' and pat.text in STR_CONST_NAMES) or (pat.kind in ('ident', 'punct') and pat.text == '_')):
                 ok = False
                 break
             a1 = _next_sig(toks, i)
